@@ -1022,6 +1022,49 @@ def split(ex, st, s, sep, maxparts=None):
     return mk_slice(ex, st, parts, cnt)
 
 
+ASCII_SPACE = (9, 10, 11, 12, 13, 32)
+
+
+def fields(ex, st, s):
+    """strings.Fields for subjects over ASCII (the harness alphabets): maximal runs of bytes outside \t\n\v\f\r and blank.
+    (For bytes >= 0x80 the real function decodes UTF-8 and also splits at U+0085/U+00A0...: outside the model.)"""
+    if s.is_conc():
+        return mk_slice(ex, st, [s_const(x) for x in s.conc().split()])
+    ex.ctx.note('strings.Fields modelled for ASCII subjects: fields are maximal runs of bytes other than \\t \\n \\v \\f \\r and blank')
+    issp = [b_or(*[i_cmp('==', s.b[p], c, 8, False) for c in ASCII_SPACE]) for p in range(s.cap)]
+    maxf = (s.cap + 1) // 2
+    parts = []
+    start = 0
+    cnt = 0
+    for k in range(maxf):
+        fs = s.ln
+        for p in range(s.cap - 1, -1, -1):
+            hit = b_and(i_cmp('<', p, s.ln, W, True), i_cmp('<=', start, p, W, True), b_not(issp[p]))
+            fs = ite(hit, p, fs, W)
+        if not is_c(fs):
+            set_ub(fs, s.cap)
+        fe = s.ln
+        for p in range(s.cap - 1, -1, -1):
+            hit = b_and(i_cmp('<', p, s.ln, W, True), i_cmp('<=', fs, p, W, True), issp[p])
+            fe = ite(hit, p, fe, W)
+        if not is_c(fe):
+            set_ub(fe, s.cap)
+        found = i_cmp('<', fs, s.ln, W, True)
+        if found is False:
+            break
+        parts.append(s_substr(s, fs, fe))
+        cnt = i_bin('+', cnt, ite(found, 1, 0, W), W, True)
+        start = fe
+    if not is_c(cnt):
+        set_ub(cnt, len(parts))
+    return mk_slice(ex, st, parts, cnt)
+
+
+@intr('strings.Fields', 'bytes.Fields')
+def i_fields(ex, st, g, args, pos):
+    return lift_str(ex, st, args[:1], lambda s: fields(ex, st, s))
+
+
 @intr('strings.Split', 'bytes.Split')
 def i_split(ex, st, g, args, pos):
     return lift_str(ex, st, args[:2], lambda s, sep: split(ex, st, s, sep))
